@@ -96,7 +96,22 @@ def nSamples (r : Rows) : Nat := (r.map (·.2.length)).sum
     the last block by MinTime carries an out-of-order / stale-series / selected-series hint, its
     MaxTime exceeds the cutoff of the read-write open, the read-only rows are a subset of the
     read-write rows and every missing sample lies in `[rwcut, rocut)`. -/
-def neKind (m : List (String × String)) (ro rw : String) : String :=
+def sameStamps (a b : Rows) : Bool :=
+  a.map (fun p => (p.1, p.2.map (·.t))) == b.map (fun p => (p.1, p.2.map (·.t)))
+
+/-- (series, timestamp) pairs on which two row sets with the same timestamps carry different values. -/
+def valueDiffs (a b : Rows) : List (Nat × Int) :=
+  (a.zip b).flatMap fun (p, q) => ((p.2.zip q.2).filter fun (x, y) => x.v ≠ y.v).map fun (x, _) => (p.1, x.t)
+
+/-- `dup-ts-value`: both opens return the same series and timestamps and differ only in the VALUE at
+    timestamps that the history appended more than once with different values (`dups`): with
+    out-of-order ingestion enabled a second value for an existing timestamp can be stored next to the
+    first one, and which of the two a merge returns is not determined. -/
+def neKind (dups : List (Nat × Int)) (m : List (String × String)) (ro rw : String) : String :=
+  let dupOnly : Bool := match parseRows? ro, parseRows? rw with
+    | some a, some b => sameStamps a b && !(valueDiffs a b).isEmpty && (valueDiffs a b).all (fun d => dups.contains d)
+    | _, _ => false
+  if dupOnly then "dup-ts-value" else
   match parseRows? ro, parseRows? rw, cutOf? (kv m "rocut"), cutOf? (kv m "rwcut") with
   | some a, some b, some (some rc), some wc =>
     match missing a b with
@@ -113,7 +128,7 @@ def countStr (s : String) : String :=
   | none => "?"
 
 /-- Checks of one `roq` / `rofl` observation that need nothing but the observation itself. -/
-def judgeObs (k : Nat) (op out : String) : Option String :=
+def judgeObs (dups : List (Nat × Int)) (k : Nat) (op out : String) : Option String :=
   let m := kvs op out
   let ctx := s!"step={k} op=`{opPart op}` rocut={kv m "rocut"} rwcut={kv m "rwcut"} lasthint={kv m "lasthint"}"
   match toks (opPart op) with
@@ -123,13 +138,13 @@ def judgeObs (k : Nat) (op out : String) : Option String :=
     else if kv m "tree" ≠ "same" then some s!"violation tree-changed what={kv m "tree"} {ctx}"
     else if kv m "bsort" ≠ "ok" then some s!"violation blocks-unsorted {ctx}"
     else if ro ≠ rw then
-      some s!"violation ro-ne-rw kind={neKind m ro rw} ro={countStr ro} rw={countStr rw} {ctx} got={ro} want={rw}"
+      some s!"violation ro-ne-rw kind={neKind dups m ro rw} ro={countStr ro} rw={countStr rw} {ctx} got={ro} want={rw}"
     else none
   | "rofl" :: _ =>
     let fl := kv m "fl"; let hd := kv m "hd"
     if fl = "?" ∨ hd = "?" then some s!"violation bad-observation {ctx}"
     else if fl ≠ hd then
-      some s!"violation flush-ne-head kind={neKind m fl hd} fl={countStr fl} hd={countStr hd} {ctx} got={fl} want={hd}"
+      some s!"violation flush-ne-head kind={neKind dups m fl hd} fl={countStr fl} hd={countStr hd} {ctx} got={fl} want={hd}"
     else if kv m "ftree" ≠ "same" then some s!"violation flush-changes-dir what={kv m "ftree"} {ctx}"
     else none
   | _ => none
@@ -156,12 +171,21 @@ def refStream (pairs : List (String × String)) : List (String × String) :=
     | some (.rofl clean) => if clean then [("reopen", "ok")] else []
     | none => []
 
+/-- (series, timestamp) pairs appended at least twice with different values in the history. -/
+def dupStamps (ops : List String) : List (Nat × Int) :=
+  let apps : List (Nat × Int × Nat) := ops.filterMap fun l =>
+    match parseOp? (opPart l) with
+    | some (.app s t v) => some (s, t, v)
+    | _ => none
+  (apps.filter fun a => apps.any fun b => a.1 = b.1 ∧ a.2.1 = b.2.1 ∧ a.2.2 ≠ b.2.2).map fun a => (a.1, a.2.1)
+
 def judgeWith (refCheck : Bool) (ops outs : List String) : String :=
   let pairs := ops.zip outs
+  let dups := dupStamps ops
   match internalErr pairs with
   | some v => v
   | none =>
-    match firstSome (fun k (p : String × String) => judgeObs k p.1 p.2) 0 pairs with
+    match firstSome (fun k (p : String × String) => judgeObs dups k p.1 p.2) 0 pairs with
     | some v => v
     | none =>
       if !refCheck then "ok" else
